@@ -13,7 +13,10 @@ tensors) with defaults that are mostly not the semiring's zero; (7) HISTORIES: s
 log_viterbi_einsum_forward) on the same operand objects, with in-place updates of their contents in between (writes
 through the storage, physical.mul_/add_/logical_not_, neg_(), *=), or equal-looking replacement objects (same axes
 objects and other contents; the same physical tensor under a new PatternedTensor, possibly with another default); every
-call is judged by the same check functions on the operands' contents at the time of the call."""
+call is judged by the same check functions on the operands' contents at the time of the call; (8) REFINEMENTS: indices of
+product type (flat atom lists) that different operands see through different factorisations (12 = 2x2x3 as 12 / 2*6 / 4*3 /
+2*2*3), mostly >= 3 operands in random order, block axes shared between two indices of one operand (vaxes (P*Q, Q)) and
+between operands: unify has to split factors that an earlier unification has already bound."""
 import itertools, math, random, json, warnings, traceback
 from fractions import Fraction
 from harness.core import *
@@ -857,6 +860,7 @@ def run(tier, seed):
                     "stream (6): index types with a zero-size summand (a + 0 + b, a + (0 x 2), (0 + 2) x 2, ...), some operand choosing the empty summand (an empty physical axis inside a non-empty virtual extent), default != semiring zero in about 2/3 of the operands, einsum / mv / mm / Viterbi; "
                     "stream (7): histories of 2-3 calls on the same operand objects (default != semiring zero in about 70%% of the operands), before every later call at least one operand is updated in place "
                     "(copy into the storage, scale, neg_, *=) or replaced by an equal-looking object (fresh object over the same axes; same physical tensor under a new PatternedTensor, also with another default), the entry point may change between calls; every call is one evaluation judged on the contents at that time; "
+                    "stream (8): refinements -- every index has a product type given as a flat list of atoms (2x2, 2x3, 2x2x3, 2x3x2, 2x2x2x2, 2x3x3, 2x2x5, ...; the other indices mostly consecutive sub-lists of the first), every operand sees it through a random grouping of consecutive atoms into blocks, one PhysicalAxis per block (12 as 12 / 2*6 / 4*3 / 2*2*3), a block axis is reused with probability 0.3-0.8 wherever the same atom list occurs (two indices of one operand: (P*Q, Q); other operands when the pool is shared), 2-4 operands (>= 3 in most) of rank 1-3 in random order, 4 semirings, requires_grad, the Viterbi variant in a tenth; histogram.refine counts the cases whose factorisations differ / share a factor between indices; "
                     "the whole storage, strides, offset and identity of the physical tensor, axes and default of every operand are compared before/after each call; non-trivial = some operand has a non-physical axis, a diagonal or an expanded (stride-0) dimension; distinct by full case data" % n_sigs,
                signatures_enumerated=n_sigs, histogram=hist, verdicts=verdicts, kernel_reevaluated=kern,
                theorem_certificate=dict(cases=n_cert, verdicts=cert_hist,
@@ -926,7 +930,7 @@ def replay(path):
 
 MANIFEST = dict(
     level="proof",
-    text="Coq theorems about a Gallina model of fggs.indices.einsum / log_viterbi_einsum_forward / project and fggs.equation.reduce_equation / post_einsum: the dense specification (empty list = one, zero-size summed index = zero, permutation invariance), the patterned algorithm equals the specification on the operands' denotations (re-indexing of the sum over virtual indices by the injective physical parametrisation; soundness half without the completeness premise; under decidable premises evaluated per case; WITHOUT premises for operands typed in a common context over good index types: C07_patterned_eq_dense_typed, all exits, any defaults, shared axes, __post_init__ included -- every certificate premise is derived from typing (C07_cert_premises_typed: the substitution is well typed and acyclic, unify is complete along the loop, default_to/freshen preserve the denotation), also mv/mm (C07_mv_typed, C07_mm_typed) and the Viterbi pointers (C07_argmax_typed)), reduce_equation is sound, the Viterbi pointers attain the maximum and are eval of the summed axes at the physical argmax (also for repeated output indices, repaired in /repo 3f6a623), mv/mm are instances. An operand with an empty physical axis is all-default whatever its virtual shape (C07_empty_physical_is_all_default / _denote). The model is tied to /repo by running both on generated signatures x typed patterns x 4 semirings x requires_grad, on operands with an empty physical axis inside a non-empty virtual extent and defaults other than the semiring zero, and on histories of calls on the same operand objects with in-place updates in between (each call judged on the contents at that time); the specification applied to brute-force denotations judges every implementation output inside Coq (exact carriers).",
+    text="Coq theorems about a Gallina model of fggs.indices.einsum / log_viterbi_einsum_forward / project and fggs.equation.reduce_equation / post_einsum: the dense specification (empty list = one, zero-size summed index = zero, permutation invariance), the patterned algorithm equals the specification on the operands' denotations (re-indexing of the sum over virtual indices by the injective physical parametrisation; soundness half without the completeness premise; under decidable premises evaluated per case; WITHOUT premises for operands typed in a common context over good index types: C07_patterned_eq_dense_typed, all exits, any defaults, shared axes, __post_init__ included -- every certificate premise is derived from typing (C07_cert_premises_typed: the substitution is well typed and acyclic, unify is complete along the loop, default_to/freshen preserve the denotation), also mv/mm (C07_mv_typed, C07_mm_typed) and the Viterbi pointers (C07_argmax_typed)), reduce_equation is sound, the Viterbi pointers attain the maximum and are eval of the summed axes at the physical argmax (also for repeated output indices, repaired in /repo 3f6a623), mv/mm are instances. An operand with an empty physical axis is all-default whatever its virtual shape (C07_empty_physical_is_all_default / _denote). The model is tied to /repo by running both on generated signatures x typed patterns x 4 semirings x requires_grad, on operands with an empty physical axis inside a non-empty virtual extent and defaults other than the semiring zero, and on histories of calls on the same operand objects with in-place updates in between (each call judged on the contents at that time), and on >= 3 operands whose product-typed indices are factorised differently per operand with factor axes shared between indices (unify splits axes that are already bound: C07_unify_keeps_bindings -- the model's unify only ever extends the substitution); the specification applied to brute-force denotations judges every implementation output inside Coq (exact carriers).",
     note="Known finding F23: log_viterbi_einsum_forward computes +inf + -inf = nan (torch_semiring_einsum's plain addition). Trusted: Coq kernel + vm_compute, extraction cross-checked against vm_compute, the Python harness (numbering of PhysicalAxis objects, reading of torch storage/strides, exp reading of the Log semiring within 1e-9), torch_semiring_einsum as the dense einsum under test.",
     technique="Coq proof (model + theorems) + model/implementation correspondence with a verified dense-specification oracle + per-case evaluation of the theorem's decidable premises",
     design_ref="DESIGN.md section 6, C07; section 7; Appendix A.6")
